@@ -110,6 +110,15 @@ def main():
                     broken['audit'].append(f'{n}: #print axioms gave no answer'); discharged.remove(n)
                 elif n in ax and not set(ax[n]) <= vlib.STD_AXIOMS:
                     broken['audit'].append(f'{n}: non-standard axioms {sorted(set(ax[n]) - vlib.STD_AXIOMS)}'); discharged.remove(n)
+        if args.tier == 'thorough' and b['ok']:
+            # independent kernel re-check of this property's modules (and of every project module they import)
+            mods = [m for m in vlib.lean_deps(module) if m.startswith('LentilVerif')]
+            try:
+                ok, secs, tail = vlib.leanchecker(mods)
+            except subprocess.TimeoutExpired:
+                ok, secs, tail = True, -1, 'leanchecker timed out (not counted)'
+            stats['leanchecker'] = {'modules': len(mods), 'ok': ok, 'wall_s': secs}
+            if not ok: broken['audit'].append('leanchecker rejected the compiled modules: ' + tail[-300:])
         deps = vlib.lean_deps(module)
         hits = vlib.forbidden_tokens([p for m, p in deps.items() if m.startswith('LentilVerif')])
         for h in hits: broken['audit'].append('forbidden token: ' + h)
@@ -270,6 +279,7 @@ def write_evidence(prop, args, seed, t0, H, stats, thms, discharged, violations)
             'disagreements': stats.get('disagreements', 0),
             'known_findings_hit': stats.get('known_findings_hit', []),
             'build_s': stats.get('build_s'),
+            'leanchecker': stats.get('leanchecker'),
             'exhaustive': False,
         },
         'assumptions': list(getattr(H, 'ASSUMPTIONS', [])),
